@@ -289,7 +289,17 @@ def z_r3_writer_shape(p: Project, rep: Report):
     elif zfilled:
         rep.check("Z-R3", "format_datetime:minutes=.MM", True, "", tloc(p, fd0))
     else:
-        rep.note("Z-R3 undecided: minutes format not recognised")
+        # the offset re-punctuated from strftime("%z") (+HHMM, or +HHMMSS[.ffffff] when the offset has seconds): every
+        # piece must be cut with BOTH bounds - an open-ended slice carries the seconds into the minutes field
+        zs = set()
+        for st in ast.walk(fd):
+            if isinstance(st, ast.Assign) and isinstance(st.value, ast.Call) and isinstance(st.value.func, ast.Attribute) and st.value.func.attr == "strftime" and st.value.args and isinstance(st.value.args[0], ast.Constant) and st.value.args[0].value == "%z":
+                zs |= {t.id for t in st.targets if isinstance(t, ast.Name)}
+        open_ended = [x for x in ast.walk(fd) if isinstance(x, ast.Subscript) and isinstance(x.slice, ast.Slice) and x.slice.upper is None and x.slice.lower is not None and ((isinstance(x.value, ast.Name) and x.value.id in zs) or (isinstance(x.value, ast.Call) and isinstance(x.value.func, ast.Attribute) and x.value.func.attr == "strftime" and x.value.args and isinstance(x.value.args[0], ast.Constant) and x.value.args[0].value == "%z"))]
+        if zs or open_ended:
+            rep.check("Z-R3", "format_datetime:minutes=.MM", not open_ended, f"the minutes are taken as {text(open_ended[0])} of strftime('%z'): for an offset with a seconds part (+HHMMSS, e.g. local mean time zones) that is four or more digits, which is not OFX and which the reader's own two-digit group rejects" if open_ended else "", tloc(p, fd0))
+        else:
+            rep.note("Z-R3 undecided: minutes format not recognised")
     for clsname in ("DateTime", "Time"):
         r = rx.class_regex(p, TYPES, clsname)
         items, path = r.find_group("gmt_offset_hours")
